@@ -77,7 +77,7 @@ fn generated(seed: u64, k: u64) -> Sample {
 }
 
 pub fn run(run: &Run) {
-    run.rule("every loadable corpus file and generated multi-section files (classic/stream xref, /Prev chains, object streams) x prefixes of length {0..16, 255, 256, 512, 1000, 1018, 1019} + random lengths x contents {zeros, 0xFF, random, PDF-token-like text, mail-header-like} never containing %PDF-; the prefixed file must load and give identical trailer, version, resolve(n) for all n (streams as dictionary + raw data), page boxes/ops and scan() items. distinct_nontrivial = distinct (file, prefix) pairs with prefix length > 0");
+    run.rule("every loadable corpus file and generated multi-section files (classic/stream xref, /Prev chains, object streams) x prefixes of every length 1..1019 (files up to 30 KB quick / 200 KB thorough; {1..16, 255, 256, 512, 1000, 1018, 1019} + random lengths otherwise) x contents {zeros, 0xFF, random, PDF-token-like text, mail-header-like} never containing %PDF-; the prefixed file must load and give identical trailer, version, resolve(n) for all n (streams as dictionary + raw data), page boxes/ops and scan() items. distinct_nontrivial = distinct (file, prefix) pairs with prefix length > 0");
     run.assume("baseline = the same file without prefix read by the same library build; files whose unprefixed baseline does not load are skipped and listed");
     let mut samples = valid_files();
     let ngen = run.n(12, 400);
@@ -87,6 +87,7 @@ pub fn run(run: &Run) {
     let mut work: Vec<(usize, usize, u64)> = Vec::new(); // (sample, len, kind)
     let fixed_lens: Vec<usize> = (1..=16).chain([255, 256, 512, 1000, 1018, 1019]).collect();
     let mut r = Rng::derive(run.seed, 17, 0);
+    let mut exhaustive_files = 0;
     for (si, s) in samples.iter().enumerate() {
         let big = s.bytes.len() > 60_000;
         let lens: Vec<usize> = if big { vec![1, 7, 1019] } else if run.quick() { let mut v = fixed_lens.clone(); for _ in 0..3 { v.push(1 + r.below(1019) as usize); } v } else { let mut v = fixed_lens.clone(); for _ in 0..30 { v.push(1 + r.below(1019) as usize); } v };
@@ -94,7 +95,14 @@ pub fn run(run: &Run) {
             let kinds: Vec<u64> = if run.quick() && !(j % 4 == 0) { vec![(si + j) as u64 % 5] } else { vec![0, 1, 2, 3, 4] };
             for k in kinds { work.push((si, *l, k)); }
         }
+        // every prefix length 1..=1019 (one content kind each): a slip between header-relative and absolute positions may
+        // show for a single length only (e.g. the distance between two cross-reference sections)
+        if s.bytes.len() <= if run.quick() { 30_000 } else { 200_000 } {
+            for l in 1..=1019usize { if !lens.contains(&l) { work.push((si, l, (l as u64 + si as u64) % 5)); } }
+            exhaustive_files += 1;
+        }
     }
+    run.exhaustive(&format!("all prefix lengths 1..=1019 for each of {} files (corpus files up to {} bytes and the generated files)", exhaustive_files, if run.quick() { 30_000 } else { 200_000 }), true);
     let baselines: Vec<Result<Vec<(String, String)>, String>> = {
         let slots: Vec<std::sync::Mutex<Option<Result<Vec<(String, String)>, String>>>> = samples.iter().map(|_| std::sync::Mutex::new(None)).collect();
         par_for(samples.len() as u64, |i| { let s = &samples[i as usize]; *slots[i as usize].lock().unwrap() = Some(observe(&s.bytes, &s.password, cfg, true)); });
